@@ -263,25 +263,25 @@ def readsNeeded (limit len : Nat) : Nat :=
 
 section data
 variable {cfg : Cfg} (hnt : cfg.transients = []) (v : Variant) (hv : v.fallThrough = false)
-  {s : Store} (hren : v.renew s = s) (res : Nat) {hid : Nat} {rec : List Nat} {nx0 : Nat}
+  {s : Store} (hren : v.renew s = s) {hid : Nat} {rec : List Nat} {nx0 : Nat}
   (hl : lookup (cfg.recs s) hid = some (rec, nx0)) (hid_lt : hid < 65536) (hrec : rec.length ≤ 260)
 include hnt hv hren hl hid_lt hrec
 
 omit hv in
 /-- steady phase: the request size is within the limit; `c` more chunks cover the rest -/
 theorem dataLoop_steady :
-    ∀ r m st acc next last c,
+    ∀ r m st res acc next last c,
       acc.length ≤ rec.length → (acc.length = rec.length → 1 ≤ c) →
       (∃ j k, j ≤ 4 ∧ m = 20 - 4 * j ∧ acc.length = 5 + m * k ∧ j + k + r = 20) →
       (m ≤ cfg.limit ∨ rec.length - acc.length ≤ cfg.limit) →
       rec.length - acc.length ≤ m * c → c + 1 ≤ r → pending cfg st ≤ 2 →
-      ∃ st' p, dataLoop XK v (fun st off len => getChunk K v (step cfg) s st res hid off len) rec.length r m st acc next last
+      ∃ st' p, dataLoop XK v (getFn K v (step cfg) s hid) rec.length r m st res acc next last
         = (st', .ok p) ∧ st.n ≤ st'.n := by
   intro r
   induction r with
-  | zero => intro m st acc next last c _ _ _ _ _ h; omega
+  | zero => intro m st res acc next last c _ _ _ _ _ h; omega
   | succ r ih =>
-    intro m st acc next last c hle hc1 ⟨j, k, hj, hm, hoff, hbud⟩ hlim hcov hcr hp
+    intro m st res acc next last c hle hc1 ⟨j, k, hj, hm, hoff, hbud⟩ hlim hcov hcr hp
     rw [dataLoop_succ]
     have hr0 : r ≠ 0 := by
       intro h; subst h
@@ -298,7 +298,12 @@ theorem dataLoop_steady :
     have hlen_lim : ¬ len > cfg.limit := by
       rw [← hlen]; split <;> omega
     obtain ⟨st1, hg, hn1⟩ := getChunk_settles hnt v hren hl hid_lt acc.length len hoff256 (by omega) hlen_in st res hp
-    rw [hg]
+    rcases hgf : getFn K v (step cfg) s hid st res acc.length len with ⟨q, res1⟩
+    have hq : q = (st1, settled cfg rec nx0 acc.length len) := by
+      have := congrArg Prod.fst hgf
+      rw [getFn_fst, hg] at this
+      exact this.symm
+    subst hq
     simp only [settled, if_neg hlen_lim]
     have hbl : ((rec.drop acc.length).take len).length = len := by simp; omega
     have hlab : (acc ++ (rec.drop acc.length).take len).length = acc.length + len := by
@@ -315,7 +320,7 @@ theorem dataLoop_steady :
         | zero => simp at hcov; omega
         | succ c' => exact ⟨c', rfl⟩
       rw [Nat.mul_succ] at hcov
-      obtain ⟨st2, p, h2, hn2⟩ := ih m st1 (acc ++ (rec.drop acc.length).take len) nx0 ((rec.drop acc.length).take len) c'
+      obtain ⟨st2, p, h2, hn2⟩ := ih m st1 res1 (acc ++ (rec.drop acc.length).take len) nx0 ((rec.drop acc.length).take len) c'
         (by omega) (by intro h; omega)
         ⟨j, k + 1, hj, hm, by rw [hlab, hoff, hlm, Nat.mul_succ]; omega, by omega⟩
         (by rw [hlab]; omega) (by rw [hlab]; omega) (by omega)
@@ -324,11 +329,11 @@ theorem dataLoop_steady :
 
 omit hrec in
 /-- shrinking phase: a request longer than the limit is refused and repeated 4 bytes shorter -/
-theorem dataLoop_refused (r m : Nat) (st : State) (acc : List Nat) (next : Nat) (last : List Nat)
+theorem dataLoop_refused (r m : Nat) (st : State) (res : Nat) (acc : List Nat) (next : Nat) (last : List Nat)
     (hr0 : r ≠ 0) (hle : acc.length ≤ rec.length) (hoff : acc.length < 256) (hm20 : m ≤ 20) (hm4 : 4 < m)
     (hbig : cfg.limit < m) (hrest : cfg.limit < rec.length - acc.length) (hp : pending cfg st ≤ 2) :
-    ∃ st1, dataLoop XK v (fun st off len => getChunk K v (step cfg) s st res hid off len) rec.length (r + 1) m st acc next last
-        = dataLoop XK v (fun st off len => getChunk K v (step cfg) s st res hid off len) rec.length r (m - 4) st1 acc next last
+    ∃ st1 res1, dataLoop XK v (getFn K v (step cfg) s hid) rec.length (r + 1) m st res acc next last
+        = dataLoop XK v (getFn K v (step cfg) s hid) rec.length r (m - 4) st1 res1 acc next last
       ∧ st.n ≤ st1.n := by
   rw [dataLoop_succ]
   simp only [if_neg hr0]
@@ -337,69 +342,74 @@ theorem dataLoop_refused (r m : Nat) (st : State) (acc : List Nat) (next : Nat) 
   have hlen_in : acc.length + len ≤ rec.length := by rw [← hlen]; split <;> omega
   have hlen_lim : len > cfg.limit := by rw [← hlen]; split <;> omega
   obtain ⟨st1, hg, hn1⟩ := getChunk_settles hnt v hren hl hid_lt acc.length len hoff (by omega) hlen_in st res hp
-  rw [hg]
+  rcases hgf : getFn K v (step cfg) s hid st res acc.length len with ⟨q, res1⟩
+  have hq : q = (st1, settled cfg rec nx0 acc.length len) := by
+    have := congrArg Prod.fst hgf
+    rw [getFn_fst, hg] at this
+    exact this.symm
+  subst hq
   simp only [settled, if_pos hlen_lim]
-  refine ⟨st1, ?_, hn1⟩
+  refine ⟨st1, res1, ?_, hn1⟩
   have h1 : ccCantReturn = XK.cantReturn := rfl
   have h2 : XK.reqLenDec = 4 := rfl
   simp only [h1, if_true, h2, if_neg (by omega : ¬ m ≤ 4), hv, Bool.false_eq_true, if_false]
 
 /-- from the header on: the loop of get_sdr_data_helper returns when the iterations needed fit -/
 theorem dataLoop_completes (h5 : 5 ≤ cfg.limit) (hlen5 : 5 ≤ rec.length)
-    (hfit : readsNeeded cfg.limit rec.length ≤ 19) (st : State) (next : Nat) (last : List Nat)
+    (hfit : readsNeeded cfg.limit rec.length ≤ 19) (st : State) (res : Nat) (next : Nat) (last : List Nat)
     (hp : pending cfg st ≤ 2) :
-    ∃ st' p, dataLoop XK v (fun st off len => getChunk K v (step cfg) s st res hid off len) rec.length 20 20 st
+    ∃ st' p, dataLoop XK v (getFn K v (step cfg) s hid) rec.length 20 20 st res
         (rec.take 5) next last = (st', .ok p) ∧ st.n ≤ st'.n := by
   have hacc : (rec.take 5).length = 5 := by simp; omega
-  have steady := dataLoop_steady hnt v hren res hl hid_lt hrec
-  have refused := dataLoop_refused hnt v hv hren res hl hid_lt
+  have steady := dataLoop_steady hnt v hren hl hid_lt hrec
+  have refused := dataLoop_refused hnt v hv hren hl hid_lt
   unfold readsNeeded at hfit
   by_cases hA : rec.length - 5 ≤ cfg.limit ∧ rec.length - 5 ≤ 20
-  · exact steady 20 20 st (rec.take 5) next last 1 (by omega) (by intro; omega)
+  · exact steady 20 20 st res (rec.take 5) next last 1 (by omega) (by intro; omega)
       ⟨0, 0, by omega, by omega, by omega, by omega⟩ (Or.inr (by omega)) (by omega) (by omega) hp
   · rw [if_neg hA] at hfit
     unfold chunkSize at hfit
     by_cases h20 : 20 ≤ cfg.limit
     · simp only [if_pos h20] at hfit
-      exact steady 20 20 st (rec.take 5) next last ((rec.length - 5 + 20 - 1) / 20) (by omega) (by intro; omega)
+      exact steady 20 20 st res (rec.take 5) next last ((rec.length - 5 + 20 - 1) / 20) (by omega) (by intro; omega)
         ⟨0, 0, by omega, by omega, by omega, by omega⟩ (Or.inl (by omega)) (by omega) (by omega) hp
     · simp only [if_neg h20] at hfit
       have hrest : cfg.limit < rec.length - (rec.take 5).length := by omega
-      obtain ⟨st1, e1, hn1⟩ := refused 19 20 st (rec.take 5) next last (by omega) (by omega) (by omega) (by omega)
+      obtain ⟨st1, r1, e1, hn1⟩ := refused 19 20 st res (rec.take 5) next last (by omega) (by omega) (by omega) (by omega)
         (by omega) (by omega) hrest hp
       have hp1 : pending cfg st1 ≤ 2 := Nat.le_trans (pending_mono cfg hn1) hp
       rw [e1]
       by_cases h16 : 16 ≤ cfg.limit
       · simp only [if_pos h16] at hfit
-        obtain ⟨st', p, e, hn⟩ := steady 19 16 st1 (rec.take 5) next last ((rec.length - 5 + 16 - 1) / 16) (by omega)
+        obtain ⟨st', p, e, hn⟩ := steady 19 16 st1 r1 (rec.take 5) next last ((rec.length - 5 + 16 - 1) / 16) (by omega)
           (by intro; omega) ⟨1, 0, by omega, by omega, by omega, by omega⟩ (Or.inl (by omega)) (by omega) (by omega) hp1
         exact ⟨st', p, e, by omega⟩
       · simp only [if_neg h16] at hfit
-        obtain ⟨st2, e2, hn2⟩ := refused 18 16 st1 (rec.take 5) next last (by omega) (by omega) (by omega) (by omega)
+        obtain ⟨st2, r2, e2, hn2⟩ := refused 18 16 st1 r1 (rec.take 5) next last (by omega) (by omega) (by omega) (by omega)
           (by omega) (by omega) hrest hp1
         have hp2 : pending cfg st2 ≤ 2 := Nat.le_trans (pending_mono cfg hn2) hp1
         rw [e2]
         by_cases h12 : 12 ≤ cfg.limit
         · simp only [if_pos h12] at hfit
-          obtain ⟨st', p, e, hn⟩ := steady 18 12 st2 (rec.take 5) next last ((rec.length - 5 + 12 - 1) / 12) (by omega)
+          obtain ⟨st', p, e, hn⟩ := steady 18 12 st2 r2 (rec.take 5) next last ((rec.length - 5 + 12 - 1) / 12) (by omega)
             (by intro; omega) ⟨2, 0, by omega, by omega, by omega, by omega⟩ (Or.inl (by omega)) (by omega) (by omega) hp2
           exact ⟨st', p, e, by omega⟩
         · simp only [if_neg h12] at hfit
-          obtain ⟨st3, e3, hn3⟩ := refused 17 12 st2 (rec.take 5) next last (by omega) (by omega) (by omega) (by omega)
+          obtain ⟨st3, r3, e3, hn3⟩ := refused 17 12 st2 r2 (rec.take 5) next last (by omega) (by omega) (by omega) (by omega)
             (by omega) (by omega) hrest hp2
           have hp3 : pending cfg st3 ≤ 2 := Nat.le_trans (pending_mono cfg hn3) hp2
           rw [e3]
           by_cases h8 : 8 ≤ cfg.limit
           · simp only [if_pos h8] at hfit
-            obtain ⟨st', p, e, hn⟩ := steady 17 8 st3 (rec.take 5) next last ((rec.length - 5 + 8 - 1) / 8) (by omega)
+            obtain ⟨st', p, e, hn⟩ := steady 17 8 st3 r3 (rec.take 5) next last ((rec.length - 5 + 8 - 1) / 8) (by omega)
               (by intro; omega) ⟨3, 0, by omega, by omega, by omega, by omega⟩ (Or.inl (by omega)) (by omega) (by omega) hp3
             exact ⟨st', p, e, by omega⟩
           · simp only [if_neg h8] at hfit
-            obtain ⟨st4, e4, hn4⟩ := refused 16 8 st3 (rec.take 5) next last (by omega) (by omega) (by omega) (by omega)
+            obtain ⟨st4, r4, e4, hn4⟩ := refused 16 8 st3 r3 (rec.take 5) next last (by omega) (by omega) (by omega) (by omega)
               (by omega) (by omega) hrest hp3
             have hp4 : pending cfg st4 ≤ 2 := Nat.le_trans (pending_mono cfg hn4) hp3
             rw [e4]
-            obtain ⟨st', p, e, hn⟩ := steady 16 4 st4 (rec.take 5) next last ((rec.length - 5 + 4 - 1) / 4) (by omega)
+            obtain ⟨st', p, e, hn⟩ := steady 16 4 st4 r4 (rec.take 5) next last ((rec.length - 5 + 4 - 1) / 4) (by omega)
               (by intro; omega) ⟨4, 0, by omega, by omega, by omega, by omega⟩ (Or.inl (by omega)) (by omega) (by omega) hp4
             exact ⟨st', p, e, by omega⟩
 
@@ -411,13 +421,18 @@ theorem getSdrDataWith_completes {cfg : Cfg} (hw : cfg.wf) (hnt : cfg.transients
     (hv : v.fallThrough = false) {s : Store} (hren : v.renew s = s) {id : Nat} (hid : id < 65536)
     {rec : List Nat} {nx : Nat} (hl : lookup (cfg.recs s) id = some (rec, nx)) (h5 : 5 ≤ cfg.limit)
     (hfit : readsNeeded cfg.limit rec.length ≤ 19) (st : State) (res : Nat) (hp : pending cfg st ≤ 2) :
-    ∃ st', getSdrDataWith K XK v (step cfg) s st id res = (st', .ok (nx, rec)) ∧ st.n ≤ st'.n := by
+    ∃ st' res', getSdrDataWith K XK v (step cfg) s st id res = (st', .ok ((nx, rec), res')) ∧ st.n ≤ st'.n := by
   have hwf := recWf_facts (recsWf_mem (wf_recs hw s) (lookup_mem hl))
   have key : ∃ st' p, getSdrDataWith K XK v (step cfg) s st id res = (st', .ok p) ∧ st.n ≤ st'.n := by
     unfold getSdrDataWith
     obtain ⟨st1, hg, hn1⟩ := getChunk_settles hnt v hren hl hid 0 XK.hdrLen (by omega) (by decide)
       (by show 0 + 5 ≤ rec.length; omega) st res hp
-    rw [hg]
+    rcases hgf : getFn K v (step cfg) s id st res 0 XK.hdrLen with ⟨q, res1⟩
+    have hq : q = (st1, settled cfg rec nx 0 XK.hdrLen) := by
+      have := congrArg Prod.fst hgf
+      rw [getFn_fst, hg] at this
+      exact this.symm
+    subst hq
     have h5' : ¬ XK.hdrLen > cfg.limit := by show ¬ 5 > cfg.limit; omega
     simp only [settled, if_neg h5']
     have hd : (rec.drop 0).take XK.hdrLen = rec.take 5 := by simp [XK, PyIpmi.Gen.Loops11.xconsts]
@@ -426,32 +441,40 @@ theorem getSdrDataWith_completes {cfg : Cfg} (hw : cfg.wf) (hnt : cfg.transients
     rw [if_neg (by omega)]
     obtain ⟨hh1, hh2⟩ := hdr_facts rec
     rw [hh1, hh2, hwf.2.2.2]
-    obtain ⟨st', p, e, hn⟩ := dataLoop_completes hnt v hv hren res (lookup_self hl) hwf.2.2.1 hwf.2.1 h5 hwf.1 hfit
-      st1 nx (rec.take 5) (Nat.le_trans (pending_mono cfg hn1) hp)
+    obtain ⟨st', p, e, hn⟩ := dataLoop_completes hnt v hv hren (lookup_self hl) hwf.2.2.1 hwf.2.1 h5 hwf.1 hfit
+      st1 res1 nx (rec.take 5) (Nat.le_trans (pending_mono cfg hn1) hp)
     exact ⟨st', p, e, by omega⟩
-  obtain ⟨st', ⟨nx', d⟩, e, hn⟩ := key
+  obtain ⟨st', ⟨⟨nx', d⟩, res'⟩, e, hn⟩ := key
   have := getSdrDataWith_exact hw v hv s st id hid res e
   rw [hl] at this
   injection this with this
   injection this with h1 h2
   subst h1; subst h2
-  exact ⟨st', e, hn⟩
+  exact ⟨st', res', e, hn⟩
 
-theorem getSdrData_completes {cfg : Cfg} (hw : cfg.wf) (hnt : cfg.transients = []) (v : Variant)
+theorem getSdrDataR_completes {cfg : Cfg} (hw : cfg.wf) (hnt : cfg.transients = []) (v : Variant)
     (hv : v.fallThrough = false) {s : Store} (hren : v.renew s = s) {id : Nat} (hid : id < 65536)
     {rec : List Nat} {nx : Nat} (hl : lookup (cfg.recs s) id = some (rec, nx)) (h5 : 5 ≤ cfg.limit)
     (hfit : readsNeeded cfg.limit rec.length ≤ 19) (st : State) (res? : Option Nat) (hp : pending cfg st ≤ 2) :
-    ∃ st', getSdrData K XK v (step cfg) s st id res? = (st', .ok (nx, rec)) ∧ st.n ≤ st'.n := by
-  unfold getSdrData
+    ∃ st' res', getSdrDataR K XK v (step cfg) s st id res? = (st', .ok ((nx, rec), res')) ∧ st.n ≤ st'.n := by
+  unfold getSdrDataR
   cases res? with
   | some r => exact getSdrDataWith_completes hw hnt v hv hren hid hl h5 hfit st r hp
   | none =>
     simp only
     obtain ⟨st0, id0, hr, _, hn0⟩ := reserve_nt hnt s st
     rw [hr]
-    obtain ⟨st', e, hn⟩ := getSdrDataWith_completes hw hnt v hv hren hid hl h5 hfit st0 id0
+    obtain ⟨st', res', e, hn⟩ := getSdrDataWith_completes hw hnt v hv hren hid hl h5 hfit st0 id0
       (Nat.le_trans (pending_mono cfg (by omega)) hp)
-    exact ⟨st', e, by omega⟩
+    exact ⟨st', res', e, by omega⟩
+
+theorem getSdrData_completes {cfg : Cfg} (hw : cfg.wf) (hnt : cfg.transients = []) (v : Variant)
+    (hv : v.fallThrough = false) {s : Store} (hren : v.renew s = s) {id : Nat} (hid : id < 65536)
+    {rec : List Nat} {nx : Nat} (hl : lookup (cfg.recs s) id = some (rec, nx)) (h5 : 5 ≤ cfg.limit)
+    (hfit : readsNeeded cfg.limit rec.length ≤ 19) (st : State) (res? : Option Nat) (hp : pending cfg st ≤ 2) :
+    ∃ st', getSdrData K XK v (step cfg) s st id res? = (st', .ok (nx, rec)) ∧ st.n ≤ st'.n := by
+  obtain ⟨st', res', e, hn⟩ := getSdrDataR_completes hw hnt v hv hren hid hl h5 hfit st res? hp
+  exact ⟨st', getSdrData_of_R e, hn⟩
 
 /-- the bound in numbers: which record lengths complete for which limits -/
 theorem readsNeeded_thresholds (limit len : Nat) (h5 : 5 ≤ limit) (hlen : len ≤ 260)
